@@ -151,7 +151,16 @@ func hasProtocolError(c Case) bool {
 		Code *string `json:"code"`
 	}
 	if err := json.Unmarshal(body, &obj); err == nil && obj.Code != nil && *obj.Code != "" {
-		return true
+		// a defined code name, or the code_<n> spelling (which values of n are
+		// accepted is a grey zone); any other string is not a Connect code, so
+		// the body is no protocol-level error and the HTTP status decides
+		if _, ok := refwire.CodeFromName(*obj.Code); ok {
+			return true
+		}
+		if rest, ok := strings.CutPrefix(*obj.Code, "code_"); ok && rest != "" && strings.Trim(rest, "0123456789+-") == "" {
+			return true
+		}
+		return false
 	}
 	_, err := refwire.ParseConnectError(body)
 	return err == nil
@@ -243,7 +252,7 @@ var messageTokens = []string{"%", "%4", "%41", "%zz", "%c3", "%A9", "a", " ", "Ã
 var hostileJSON = []string{
 	`{}`, `null`, `[]`, `""`, `0`, `{"code":""}`, `{"code":"code_0"}`, `{"code":"code_4294967296"}`, `{"code":"code_17"}`, `{"code":5}`, `{"code":"OK"}`, `{"code":"ok"}`,
 	`{"message":"only message"}`, `{"code":"not_found"}`, `{"code":"not_found","message":5}`, `{"code":"not_found","details":{}}`, `{"code":"not_found","details":[{}]}`,
-	`{"code":"not_found","details":[{"@type":"type.googleapis.com/nope.Nope"}]}`, `{"code":"internal","message":"m","extra":1}`, `{"code":null}`, `{"code":"canceled","message":null}`,
+	`{"code":"not_found","details":[{"@type":"type.googleapis.com/nope.Nope"}]}`, `{"code":"Forbidden"}`, `{"code":"NOT_FOUND","message":"grpc-style name"}`, `{"code":"unavailable "}`, `{"code":"404"}`, `{"code":"internal","message":"m","extra":1}`, `{"code":null}`, `{"code":"canceled","message":null}`,
 	`{"code":"unknown"`, `{"code":"not_found"}trailing`, strings.Repeat("[", 2000), `{"code":"` + strings.Repeat("x", 5000) + `"}`,
 }
 var hostileEndStream = []string{
@@ -323,6 +332,11 @@ func gen(t *rapid.T) Case {
 			c.Status = rapid.SampledFrom([]int{400, 401, 403, 404, 409, 429, 500, 503, 200}).Draw(t, "status")
 			c.Header = setKV(c.Header, "Content-Type", rapid.SampledFrom([]string{"application/json", "application/json", "text/plain", "application/proto"}).Draw(t, "ct"))
 			c.Body = []byte(rapid.SampledFrom(hostileJSON).Draw(t, "json"))
+			if rapid.IntRange(0, 3).Draw(t, "foreignCode") == 0 {
+				// JSON error bodies of other systems: a "code" that is no Connect code
+				c.Body = []byte(rapid.SampledFrom([]string{`{"code":"Forbidden"}`, `{"code":"NOT_FOUND","message":"grpc-style name"}`, `{"code":"unavailable "}`, `{"code":"404"}`, `{"code":"E_TOO_BUSY","message":"try later"}`, `{"code":"PermissionDenied"}`}).Draw(t, "foreignJSON"))
+				c.Header = setKV(c.Header, "Content-Type", "application/json")
+			}
 		}
 	case "endstream":
 		if c.Protocol == "connect" && c.Kind != prog.Unary {
@@ -387,7 +401,11 @@ func gen(t *rapid.T) Case {
 		c.Status = rapid.SampledFrom([]int{200, 200, 404, 500}).Draw(t, "status")
 		c.Body = rapid.SliceOfN(rapid.Byte(), 0, 64).Draw(t, "body")
 	}
-	c.Body = clampLengths(c.Body)
+	if !(c.Protocol == "connect" && c.Kind == prog.Unary) {
+		// (unary Connect bodies are not enveloped: there is no length prefix to
+		// clamp, and rewriting bytes 1..4 would only destroy the JSON documents)
+		c.Body = clampLengths(c.Body)
+	}
 	if rapid.IntRange(0, 5).Draw(t, "readErr") == 0 {
 		c.ReadErr = rapid.SampledFrom([]string{"unexpected", "reset"}).Draw(t, "readErrKind")
 	}
